@@ -41,11 +41,11 @@ def make_contents(seed):
                 continue
             # lyrics that begin with a double quote (balanced and unbalanced), a comma, non-ASCII text
             tcol = types.index('**text')
-            weird = ['"open', '"hi"', 'x,y', 'ñu', '日本']
+            weird = ['"open', 'a\x85b', 'x,y', 'c\u2028d', '"hi"', 'ñu', '日本']
             for e in lines:
                 if e['ev'] == 'row' and len(e['cells']) == len(types) and e['cells'][tcol]['k'] in ('text', 'null') and weird:
                     e['cells'][tcol] = gen.lit('text', weird.pop(0))
-            if len(weird) <= 3:
+            if len(weird) <= 4:
                 return lines
         raise MachineryError('could not generate a document with a lyrics spine')
 
